@@ -23,6 +23,9 @@ def main():
             na.append(dict(property_id=pid, reason=PENDING_REASON))
             continue
         m = importlib.import_module("gen." + pid.lower())
+        if not getattr(m, "READY", False):
+            na.append(dict(property_id=pid, reason=PENDING_REASON))
+            continue
         if getattr(m, "NOT_APPLICABLE", None):
             na.append(dict(property_id=pid, reason=m.NOT_APPLICABLE))
             continue
